@@ -42,7 +42,7 @@ def h_roundtrip(kinds, metas, includes, frames, coordsys, fmt, radunit, ang_i, m
     for i, (k, mk, inc, fr) in enumerate(zip(kinds, metas, includes, frames)):
         md, vd = METAS[mk]
         md = dict(md)
-        if k == 'text':
+        if k in C09.TEXTS:
             md.pop('label', None)      # for a text region the label key doubles as its string (pinned by the existing tests)
         if inc != 'absent':
             md['include'] = inc
@@ -73,9 +73,9 @@ def h_roundtrip(kinds, metas, includes, frames, coordsys, fmt, radunit, ang_i, m
         m.require(f'{tag}: include / exclude sense preserved', bool(new.meta.get('include', True)) == inc_o)
         md = METAS[metas[i]][0]
         m.require(f'{tag}: annotation type preserved', new.meta.get('type', 'reg') == md.get('type', 'reg'))
-        if 'label' in md and kinds[i] != 'text':
+        if 'label' in md and kinds[i] not in C09.TEXTS:
             m.require(f'{tag}: label preserved', new.meta.get('label') == md['label'])
-        if kinds[i] == 'text':
+        if kinds[i] in C09.TEXTS:
             m.require(f'{tag}: text string preserved', new.text == orig.text, key='C11:text:string-lost')
         for k_ in ('frame', 'veltype', 'corr'):
             if k_ in md:
@@ -246,6 +246,10 @@ def harnesses(tier):
             for radunit in (['deg', 'arcsec'] if q else ['deg', 'arcsec', 'arcmin']):
                 hs.append((f'sky/{kind}/{fr}/radunit={radunit}', P(h_roundtrip, [kind], ['spectral' if kind == 'circle' else 'label'],
                                                                    [False if kind == 'ellipse' else 'absent'], [fr], fr, '.6f', radunit, 1)))
+    for tk in C09.TEXTS:
+        if tk != 'text':
+            hs.append((f'pixel/{tk}', P(h_roundtrip, [tk], ['plain'], ['absent'], ['image'], 'image', '.4f', 'pix', 1)))
+            hs.append((f'sky/{tk}/fk5', P(h_roundtrip, [tk], ['plain'], [False], ['fk5'], 'fk5', '.6f', 'deg', 1)))
     hs.append(('sky/circle/icrs-as-galactic', P(h_roundtrip, ['circle'], ['plain'], ['absent'], ['icrs'], 'galactic', '.6f', 'deg', 0)))
     hs.append(('list/pixel/circle+ellipse+text', P(h_roundtrip, ['circle', 'ellipse', 'text'], ['label', 'ann', 'plain'],
                                                    [False, 'absent', 'absent'], ['image'] * 3, 'image', '.4f', 'pix', 2)))
